@@ -573,7 +573,9 @@ static void DecodeGen(Word Index) {
         return;
     }
 
-    for (ActArgCnt = 0; ActArgCnt <= ArgCnt; ActArgCnt++) {
+    /* more than three operands are refused below: do not store them */
+
+    for (ActArgCnt = 0; (ActArgCnt <= ArgCnt) && (ActArgCnt <= 3); ActArgCnt++) {
         pArg[ActArgCnt] = &ArgStr[ActArgCnt];
     }
     ActArgCnt = ArgCnt;
